@@ -130,6 +130,7 @@ structure PCase where
   cfg : Config
   policy : Policy
   novideo : Bool
+  twin : String
   ops : List (List String)
 
 def parseMetadata (ts : List String) : Option Metadata :=
@@ -160,6 +161,7 @@ def parsePCase (id rest : String) : PCase :=
   { id := id, cfgToks := ts, cfg := parseConfig ts,
     policy := parsePolicy ((kv ts "sink").getD "ok"),
     novideo := kv ts "novideo" == some "1",
+    twin := (kv ts "twin").getD "none",
     ops := (splitTrim opsS ";").map toks }
 
 /-! ### replies of the progressive muxer -/
@@ -212,13 +214,13 @@ def replyPR : Reply → PR
 def f64Tok (s : String) : F64 := F64.ofBits (hexNat s)
 
 /-- run the model on a progressive case -/
-def runP (c : PCase) : PObs := Id.run do
+def runPWith (c : PCase) (cfg : Config) (ops : List (List String)) : PObs := Id.run do
   if c.novideo then return { replies := [(PR.other "builderr:MissingVideoConfig:-", 0)], file := [] }
-  let mut m := build c.cfg
+  let mut m := build cfg
   let mut sink : Sink PSinkState := { st := { script := c.policy.script } }
   let mut out : Array (PR × Nat) := #[]
   let respond := policyRespond c.policy
-  for op in c.ops do
+  for op in ops do
     let before := sink.got.length
     let mut consumed := false
     let mut reply : Reply := .ok
@@ -243,6 +245,37 @@ def runP (c : PCase) : PObs := Id.run do
     out := out.push (replyPR reply, sink.got.length - before)
     if reply == .panic || consumed then break
   return { replies := out.toList, file := sink.got }
+
+def runP (c : PCase) : PObs := runPWith c c.cfg c.ops
+
+def isWriteOp (op : List String) : Bool :=
+  match op with
+  | o :: _ => o == "wv" || o == "wvd" || o == "wa" || o == "ev" || o == "ea"
+  | [] => false
+
+def isErrPR : PR → Bool
+  | .err .. => true
+  | _ => false
+
+/-- ops of the twin run of a `twin=filter` case, given the replies of the first run -/
+def filteredOps (ops : List (List String)) (replies : List (PR × Nat)) : List (List String) :=
+  (List.zip (List.range ops.length) ops).filterMap fun (i, op) =>
+    let rejected := match replies[i]? with | some (r, _) => isErrPR r | none => false
+    if rejected && isWriteOp op then none else some op
+
+/-- the model's twin run (second muxer) for `twin=` cases -/
+def runPTwin (c : PCase) (first : PObs) : Option PObs :=
+  match c.twin with
+  | "fast" => some (runPWith c { c.cfg with fast := !c.cfg.fast } c.ops)
+  | "nometa" => some (runPWith c { c.cfg with md := none } c.ops)
+  | "filter" => some (runPWith c c.cfg (filteredOps c.ops first.replies))
+  | _ => none
+
+/-- parse "obs || obs2" -/
+def parsePObs2 (s : String) : PObs × Option PObs :=
+  match s.splitOn " || " with
+  | [a, b] => (parsePObs a, some (parsePObs b))
+  | _ => (parsePObs s, none)
 
 /-! ### fragmented cases -/
 structure FCase where
